@@ -469,5 +469,6 @@ def nontrivial(case, result):
 
 
 def prebuild(root):
-    """translator: regenerate coq/Generated/Glue.v from /repo/src (proved equal to the model in Proofs/GlueTieC18.v)"""
-    return run_translator(root, "rs2v_glue.py", "C18")
+    """translators: regenerate coq/Generated/Glue.v (proved equal to the model in Proofs/GlueTieC18.v) and
+    coq/Generated/NtGen.v (the Integer / Roots / Signed code; Proofs/NtGenTie*.v) from /repo/src"""
+    return run_translator(root, "rs2v_glue.py", "C18") or run_translator(root, "rs2v_nt.py", "C18")
